@@ -1,5 +1,6 @@
 import Infretis.Model.Proto
 import Infretis.Model.Lattice
+import Infretis.Model.LatticeMoves
 open Infretis Infretis.Proto Infretis.Lattice
 
 /-- parse `cnt` rows of `2 + 2*n` tokens: len max f_0 … f_{n-1} w_0 … w_{n-1} -/
@@ -27,8 +28,62 @@ def showCols (n : Nat) (rows : List Row) : String :=
     let k := i + 1
     s!"{showRat (num k rows)} {showRat (den k rows)} {showEst (estimate k rows)}"))
 
+def parseCoin? (s : String) : Option Bool := if s = "1" then some true else if s = "0" then some false else none
+
+def b01 (b : Bool) : String := if b then "1" else "0"
+
+def showLStatus : LatticeMoves.Status → String
+  | .ACC => "ACC" | .KOB => "KOB" | .BTL => "BTL" | .BTX => "BTX" | .BWI => "BWI" | .FTL => "FTL" | .FTX => "FTX" | .NCR => "NCR"
+
+def showMStatus : Moves.Status → String
+  | .ACC => "ACC" | .KOB => "KOB" | .BTL => "BTL" | .BTX => "BTX" | .BWI => "BWI" | .FTL => "FTL" | .FTX => "FTX"
+  | .ZL => "0-L" | .NCR => "NCR" | .NSG => "NSG"
+
+/-- halve the doubled coordinates of the generic model's answer; odd values are shown as `odd` (never happens) -/
+def showHalf (x : Int) : String := if x % 2 = 0 then toString (x / 2) else "odd"
+
+/-- `lshoot mid top maxlength ld idx xi  n old…  n cb…  n cf…` →
+    `<latShoot answer> || <Moves.shoot answer>` each `ok acc status genNb usedB usedF | trial` -/
+def lshoot (toks : List String) : String :=
+  match toks with
+  | mid :: top :: ml :: ld :: idx :: xi :: rest =>
+    match parseInt? mid, parseInt? top, parseNat? ml, parseCoin? ld, parseNat? idx, parseRat? xi, takeList parseInt? rest with
+    | some mid, some top, some ml, some ld, some idx, some xi, some (old, rest) =>
+      match takeList parseCoin? rest with
+      | some (cb, rest) =>
+        match takeList parseCoin? rest with
+        | some (cf, []) =>
+          let e : LatticeMoves.Ens := { mid := mid, top := top, maxlength := ml }
+          let a := match LatticeMoves.latShoot e old ld idx xi cb cf with
+            | .error .value => "err:value"
+            | .error .badDraw => "err:baddraw"
+            | .error .zerodiv => "err:zerodiv"
+            | .ok o => s!"ok {b01 o.accept} {showLStatus o.status} {o.genNb} {o.usedB} {o.usedF} | {showList toString o.trial}"
+          let b := match LatticeMoves.latShootRef e old ld idx xi cb cf with
+            | .error .value => "err:value"
+            | .error .badDraw => "err:baddraw"
+            | .error .zerodiv => "err:zerodiv"
+            | .error .index => "err:index"
+            | .error .assert => "err:assert"
+            | .ok o => s!"ok {b01 o.accept} {showMStatus o.status} {o.genNb} {o.usedB - 1} {o.usedF - 1} | {showList showHalf o.trial}"
+          a ++ " || " ++ b
+        | _ => "bad-op"
+      | none => "bad-op"
+    | _, _, _, _, _, _, _ => "bad-op"
+  | _ => "bad-op"
+
 def handle (toks : List String) : String :=
   match toks with
+  | "lshoot" :: rest => lshoot rest
+  -- kpaths n o… n n…               matchCount of the interiors, kernelPaths o n, kernelPaths n o, pathWeight o, pathWeight n
+  | "kpaths" :: rest =>
+    match takeList parseInt? rest with
+    | some (o, rest) =>
+      match takeList parseInt? rest with
+      | some (n, []) =>
+        s!"{LatticeMoves.matchCount (LatticeMoves.interior o) (LatticeMoves.interior n)} {showRat (LatticeMoves.kernelPaths o n)} {showRat (LatticeMoves.kernelPaths n o)} {showRat (LatticeMoves.pathWeight o)} {showRat (LatticeMoves.pathWeight n)}"
+      | _ => "bad-op"
+    | none => "bad-op"
   -- estimate n cnt row*            the estimator on data rows, all columns
   | "estimate" :: n :: cnt :: rest =>
     match parseNat? n, parseNat? cnt with
